@@ -309,7 +309,10 @@ class Parameter(AbstractParameter):
             if dtype:
                 kwargs['dtype'] = dtype
             size = data['eye']
-            t = torch.eye(size, **kwargs)
+            if isinstance(size, list):
+                t = torch.eye(*size, **kwargs)
+            else:
+                t = torch.eye(size, **kwargs)
         elif 'eye_like' in data:
             # input_param should be 1 or 2 dimensional
             if dtype:
